@@ -259,6 +259,37 @@ class Ctx:
 EXPLICIT = (RuntimeError, ValueError)
 
 
+_RAISE_LITERALS = None
+
+
+def raise_literals():
+    """Leading string literals of every `raise RuntimeError/ValueError(...)` in the repository's package.
+    Used to recognise mokapot's own explicit errors when the traceback was lost at a thread boundary
+    (joblib re-raises worker exceptions from its own frames)."""
+    global _RAISE_LITERALS
+    if _RAISE_LITERALS is None:
+        import ast
+
+        lits = set()
+        for f in (REPO / "mokapot").rglob("*.py"):
+            try:
+                tree = ast.parse(f.read_text())
+            except Exception:
+                continue
+            consts = {}
+            for node in ast.walk(tree):
+                if isinstance(node, ast.Raise) and isinstance(node.exc, ast.Call):
+                    name = getattr(node.exc.func, "id", None)
+                    if name in ("RuntimeError", "ValueError") and node.exc.args:
+                        a = node.exc.args[0]
+                        if isinstance(a, ast.JoinedStr) and a.values and isinstance(a.values[0], ast.Constant):
+                            a = a.values[0]
+                        if isinstance(a, ast.Constant) and isinstance(a.value, str) and len(a.value) >= 12:
+                            lits.add(a.value[:40])
+        _RAISE_LITERALS = lits
+    return _RAISE_LITERALS
+
+
 def classify_exception(exc: BaseException):
     """('explicit_error'|'crash', description).  Explicit = a `raise` statement inside
     the repository's mokapot package raising RuntimeError/ValueError."""
@@ -282,6 +313,9 @@ def classify_exception(exc: BaseException):
                 explicit = "raise" in txt
             except Exception:
                 explicit = False
+    if not explicit and type(exc) in EXPLICIT:
+        msg = str(exc)
+        explicit = any(msg.startswith(l) for l in raise_literals())
     desc = f"{type(exc).__name__}@{where}: {str(exc)[:160]}"
     return ("explicit_error" if explicit else "crash"), desc
 
